@@ -128,6 +128,7 @@ class Run:
         self.info = []
         self.level = "other"
         self.selftest = None
+        self.deferred = []       # AnalysisErrors of rules run with attempt()
 
     # -- recording ---------------------------------------------------------
     def rule(self, rule, desc):
@@ -153,6 +154,16 @@ class Run:
         if sample is not None and len(self.samples) < 12:
             self.samples.append(sample)
         return ok
+
+    def attempt(self, fn, *args, **kw):
+        """Run one rule; an AnalysisError (the rule cannot read a construct)
+        is kept until the other rules have run: it ends the check with exit
+        2 unless another rule has established a violation."""
+        try:
+            return fn(*args, **kw)
+        except AnalysisError as e:
+            self.deferred.append(str(e))
+            return None
 
     def count(self, n=1):
         self.evaluations += n
